@@ -31,7 +31,10 @@ def one_kind(o):
 
 def message_inv(o):
     return (one_kind(o) and (not isinstance(o, Request) or params_ok(o._params))
-            and (not isinstance(o, Response) or response_inv(o)))
+            and (not isinstance(o, Response) or response_inv(o))
+            and (not isinstance(o, BatchRequest) or all(params_ok(r._params) for r in o._requests))
+            and (not isinstance(o, BatchResponse) or (
+                (o._error is UNSET or isinstance(o._error, JsonRpcError)) and all(response_inv(r) for r in o._responses))))
 
 
 @contract('pjrpc.common.common:JSONEncoder.default', props=['C05', 'C07'])
